@@ -101,7 +101,13 @@ fn main() {
                 };
                 let mut ex = conc::Explore::new(&scn, &mut out);
                 ex.keep_bases = geti(&m, "bases", 0);
-                ex.dfs(geti(&m, "bound", 2), &opts, geti(&m, "limit", 4000));
+                if let Some(sc) = m.get("asched") {
+                    // replay one access schedule (from a FINE counterexample)
+                    let sched: Vec<usize> = sc.split(',').filter(|x| !x.is_empty()).map(|x| x.parse().unwrap()).collect();
+                    ex.run(&mut conc::Strategy::Access(0, sched), &opts, vec![]);
+                } else {
+                    ex.dfs(geti(&m, "bound", 2), &opts, geti(&m, "limit", 4000));
+                }
                 let npct = geti(&m, "pct", 0);
                 if npct > 0 {
                     ex.pct(seed, npct, geti(&m, "depth", 3), &opts);
